@@ -441,6 +441,9 @@ func (f *FuncCtx) frameObligations(r *State) {
 	for _, m := range c.Modifies {
 		hs, gs := f.resolveMod(c, m)
 		for _, h := range hs {
+			if strings.HasPrefix(h, "fresh:") {
+				continue // only fresh objects may be written: the allocation-relative frame obligation stays
+			}
 			allowedH[h] = true
 		}
 		for _, g := range gs {
@@ -449,6 +452,14 @@ func (f *FuncCtx) frameObligations(r *State) {
 	}
 	for _, ga := range append(append([]GhostAssign{}, c.GhostEntry...), c.GhostExit...) {
 		allowedG[ga.Target] = true
+	}
+	var pend []string
+	for h := range r.pending {
+		pend = append(pend, h)
+	}
+	sort.Strings(pend)
+	for _, h := range pend {
+		f.heapTerm(r, h, f.w.heapSorts[h]) // materialize lazy frames so that they are checked
 	}
 	var hk []string
 	for h := range r.heap {
